@@ -1,11 +1,11 @@
 package main
 
 import (
-	"go/token"
-	"go/types"
 	_ "embed"
 	"encoding/json"
 	"fmt"
+	"go/token"
+	"go/types"
 	"path/filepath"
 	"sort"
 	"strings"
